@@ -320,6 +320,41 @@ impl ECMAScriptDatamodel {
         r
     }
 
+    /// W3C 4.6: \<foreach\> declares 'item' (and 'index') if they are not defined yet. Variables that exist
+    /// keep their value (an empty collection changes nothing); a read-only one is not a legal location:
+    /// error.execution, the \<foreach\> is not executed.
+    fn declare_foreach_variables(&mut self, item_name: &str, index: &str) -> bool {
+        for name in [item_name, index] {
+            if name.is_empty() {
+                continue;
+            }
+            let is_identifier = name.chars().all(|c| c.is_alphanumeric() || c == '_' || c == '$');
+            if !is_identifier {
+                // Some other location expression: it must be assignable.
+                if !self.assign_internal(name, "null", true) {
+                    return false;
+                }
+                continue;
+            }
+            let declare = format!("if (typeof {0} === 'undefined') {{ {0} = null; }}", name);
+            if self.strict_mode {
+                self.context.strict(false);
+            }
+            let declared = self.eval(&str_to_source(declare.as_str())).is_ok();
+            if self.strict_mode {
+                self.context.strict(true);
+            }
+            // Assigning a read-only variable fails (<assign> works in strict mode): error.execution.
+            if !declared || !self.assign(&str_to_source(name), &str_to_source(name)) {
+                if !declared {
+                    self.internal_error_execution();
+                }
+                return false;
+            }
+        }
+        true
+    }
+
     pub fn data_arc_to_js(&mut self, data: &DataArc) -> JsValue {
         match data.lock() {
             Ok(l) => self.data_value_to_js(l.deref()),
@@ -714,7 +749,11 @@ impl Datamodel for ECMAScriptDatamodel {
                         let p = ob.properties();
                         let mut idx: i64 = 0;
 
-                        if self.assign_internal(item_name, "null", true) {
+                        if !self.declare_foreach_variables(item_name, index) {
+                            // (error.execution is placed: the rest of the enclosing block is not executed)
+                            return false;
+                        }
+                        {
                             for item_prop in p.index_property_values() {
                                 // Skip the last "length" element
                                 if item_prop.enumerable().is_some() && item_prop.enumerable().unwrap() {
